@@ -108,7 +108,9 @@ PROPS["C20"] = dict(level="proof",
            U(C20M, f"{VI}._setup_convergence_testing", only=["full."], tag="full")]
           + [U(C20M, f"{c}.__post_init__") for c in CFGS]
           + [U(C20M, "mdpax.problems.perishable_inventory.mirjalili_platelet.MirjaliliPlateletPerishableConfig.__post_init__"), U(C20M, "mdpax.utils.logging.verbosity_to_loguru_level")]
-          + CTOR + [U(C20M, "mdpax.core.solver.Solver.set_verbosity"), U(["contracts.checkpointing"], f"{VI}._setup_additional_components")],
+          + CTOR + [U(C20M, "mdpax.core.solver.Solver.set_verbosity"), U(["contracts.checkpointing"], f"{VI}._setup_additional_components"),
+                    # solver-specific configuration plumbing on both construction routes
+                    U(SAM + ["contracts.vi_solve"], f"{SA}._setup_config"), U(PVM, f"{PV}._setup_config")],
     replayers=[("*", "replay_c20.py")],
     bounded=[dict(name="c20_runtime", script="harness_c20.py", wall_s=400)],
     assumptions=[ARITH, ENGINE, "the float64 clause and the equivalence of the three construction routes involve JAX's global x64 flag, Hydra instantiate and the OmegaConf YAML round trip: bounded run-time checks only (fresh processes, 5 solvers x 2 problems), not proved"])
